@@ -61,7 +61,7 @@ func sizeTestSites(fn *ssa.Function) []sizeSite {
 	for _, lp := range loops {
 		// innermost loop of each insertion only
 		testBlocks := map[ssa.Value]map[*ssa.BasicBlock]bool{}
-		for b := range lp.Blocks {
+		for _, b := range blocksInOrder(lp) {
 			if len(b.Instrs) == 0 {
 				continue
 			}
@@ -77,7 +77,7 @@ func sizeTestSites(fn *ssa.Function) []sizeSite {
 		if len(testBlocks) == 0 {
 			continue
 		}
-		for b := range lp.Blocks {
+		for _, b := range blocksInOrder(lp) {
 			inner := true
 			for _, o := range loops {
 				if o != lp && o.Blocks[b] && lp.Blocks[o.Head] && o.Head != lp.Head {
